@@ -160,6 +160,8 @@ scratch_pad * scratch_pad_new(mmd_engine * e, short format) {
 
 		p->recurse_depth = 0;
 
+		p->obfuscation_seeded = false;
+
 		p->base_header_level = 1;
 
 		p->odf_para_type = BLOCK_PARA;
